@@ -6,7 +6,7 @@
     is 0 when a child is younger than... i.e. has a larger index than its parent.  Then
       sum over labelings with root index i of the weight  =  U t i
       sum over all labelings of the weight                =  sum_i U t i  (the normalising constant). *)
-From Coq Require Import List Arith Bool Lia Reals Lra.
+From Coq Require Import List Arith Bool Lia Reals Lra Permutation.
 From TsdateV Require Import lib.Num model.Discrete proofs.DiscreteBase proofs.DiscreteInside proofs.DiscreteOutside proofs.DiscreteLog proofs.DiscreteTree.
 Import ListNotations.
 Open Scope R_scope.
@@ -201,3 +201,31 @@ Proof. intros G lik sfrac fixed priorv es es_out nonfixed cache std num_nodes ro
                  = U lik priorv t i / sumR (map (U lik priorv t) (seq 0 G))) by (intro Hne; field; split; [intro E0; apply Hne; lra|unfold K, t; lra]).
     destruct (Req_EM_T 0 (sumR (map (U lik priorv t) (seq 0 G)))) as [E|E]; [|now apply Hs].
     rewrite <- E. unfold Rdiv. rewrite Rmult_0_l, !Rinv_0, !Rmult_0_r. reflexivity. Qed.
+
+(** ** the hypotheses of the tree theorems are satisfiable: the caterpillar of the worked example,
+    with all edge likelihoods 1 and small integer priors *)
+Definition ex10R_lik (e i j : nat) : R := 1.
+Definition ex10R_prior (u : nat) : list R :=
+  if Nat.eqb u 3 then [0; 1; 2] else if Nat.eqb u 4 then [0; 3; 1] else [].
+Definition ex10R_fixed (u : nat) : bool := Nat.ltb u 3.
+Definition ex10R_es : list edge := [(0, 3, 0); (1, 3, 1); (2, 4, 2); (3, 4, 3)]%nat.
+Definition ex10R_tree : tree := Node 99 4 [Leaf 2 2; Node 3 3 [Leaf 0 0; Leaf 1 1]].
+Lemma C10_real_example :
+  (forall e i j, 0 <= ex10R_lik e i j) /\ (forall u x, In x (ex10R_prior u) -> 0 <= x) /\
+  inside_order ex10R_fixed [] (groupby e_parent ex10R_es) /\
+  tree_ok 3 ex10R_fixed ex10R_prior (groupby e_parent ex10R_es) ex10R_tree /\
+  all_pos 3 ex10R_lik ex10R_prior ex10R_tree /\
+  Permutation (inodes ex10R_tree) (filter (fun p => negb (ex10R_fixed p)) (map fst (groupby e_parent ex10R_es))) /\
+  U ex10R_lik ex10R_prior ex10R_tree 2 = 3.
+Proof. split; [|split; [|split; [|split; [|split; [|split]]]]].
+  - intros. unfold ex10R_lik. lra.
+  - intros u x. unfold ex10R_prior. destruct (Nat.eqb u 3); [|destruct (Nat.eqb u 4)]; cbn [In]; intros H;
+      repeat (destruct H as [<-|H]; [lra|]); contradiction.
+  - apply inside_orderb_spec. reflexivity.
+  - cbn. repeat split; auto.
+  - cbn [all_pos]. split; [|split; [exact I|split; [|exact I]]].
+    + exists 2%nat. split; [lia|]. cbn. unfold pr, ex10R_prior, ex10R_lik, sumR, prodR. cbn. lra.
+    + split; [|cbn; auto]. exists 2%nat. split; [lia|]. cbn. unfold pr, ex10R_prior, ex10R_lik, sumR, prodR. cbn. lra.
+  - cbn. apply perm_swap.
+  - cbn. unfold pr, ex10R_prior, ex10R_lik, sumR, prodR. cbn. lra.
+Qed.
